@@ -176,6 +176,12 @@ Section Inv.
      the invariant can be used with NN := True (histories of non-negative item counts) or NN := False *)
   Variable NN : Prop.
 
+  (* the configured capacity (None: no queue, or math.MaxInt) *)
+  Definition capb : option Z := match qc o with Some c => q_cap c | None => None end.
+  Definition le_cap (x : Z) : Prop := match capb with Some cp => x <= cp | None => True end.
+  (* under NN the capacity is non-negative (config.Validate: queue_size > 0) *)
+  Hypothesis HNcap : NN -> le_cap 0.
+
   Definition qel (q : list (nat * Z)) : Z := sumZ (map (fun p => el_size o (snd p)) q).
 
   Record GIR (c : cells_t) (q : list (nat * Z)) (nx : nat) (qs sto kept : Z) (R : list done) : Prop := {
@@ -189,7 +195,11 @@ Section Inv.
     g_sto : is_storage o = true -> sto - kept = qsum q + LS d_items c R;
     g_nn : NN -> dsum negf R = 0 /\ (forall id d n acc, In (id, (d, (n, acc))) c -> 0 <= d_el d) /\
                  Forall (fun p => 0 <= el_size o (snd p)) q /\
-                 (is_storage o = true -> 0 <= qs <= qel q + LS d_el c R) }.
+                 (is_storage o = true -> 0 <= qs <= qel q + LS d_el c R) /\
+                 le_cap qs }.
+
+  Lemma le_cap_dec qs el : NN -> le_cap qs -> 0 <= el -> le_cap (qs - el) /\ le_cap (Z.max 0 (qs - el)).
+  Proof. intros HN H He. pose proof (HNcap HN) as H0. unfold le_cap in *. destruct capb; [split; lia|split; exact I]. Qed.
 
   Lemma qel_nonneg q : Forall (fun p => 0 <= el_size o (snd p)) q -> 0 <= qel q.
   Proof. unfold qel. induction 1; cbn [map sumZ]; lia. Qed.
@@ -204,7 +214,7 @@ Section Inv.
     - rewrite <- E. exact F.
     - intros Hs. unfold LS. rewrite <- E. exact (H Hs).
     - intros Hs. unfold LS. rewrite <- E. exact (I Hs).
-    - intros HN. destruct (J HN) as (J1 & J2 & J3 & J4). split; [rewrite <- E; exact J1|]. split; [exact J2|]. split; [exact J3|].
+    - intros HN. destruct (J HN) as (J1 & J2 & J3 & J4 & J5). split; [rewrite <- E; exact J1|]. split; [exact J2|]. split; [exact J3|]. split; [|exact J5].
       intros Hs. unfold LS. rewrite <- E. exact (J4 Hs).
   Qed.
 
@@ -261,15 +271,18 @@ Section Inv.
           rewrite (remove_csum d_el _ _ _ A L). rewrite Hfd. cbn. lia.
         * intros Hs. rewrite (V8 Hs). cbn [s_stored s_kept set_ref]. rewrite (I Hs). unfold LS. rewrite dsum_cons, Hfree.
           rewrite (remove_csum d_items _ _ _ A L). rewrite Hfd. cbn. lia.
-        * intros HN. destruct (J HN) as (J1 & J2 & J3 & J4). rewrite dsum_cons in J1.
+        * intros HN. destruct (J HN) as (J1 & J2 & J3 & J4 & J5). rewrite dsum_cons in J1.
           pose proof (negf_nonneg d). pose proof (dsum_nonneg negf R' negf_nonneg).
           assert (N1' : dsum negf R' = 0) by lia.
           assert (N2' : forall id x m a, In (id, (x, (m, a))) (ref_remove (d_id d) (s_ref st)) -> 0 <= d_el x)
             by (intros id x m a Hi; apply remove_in in Hi; auto; destruct Hi as [Hi _]; eauto).
-          split; [exact N1'|]. split; [exact N2'|]. split; [exact J3|]. intros Hs. rewrite (V9 Hs). cbn [s_qsize set_ref].
-          pose proof (LS_el_nonneg _ _ N1' N2') as HL. pose proof (qel_nonneg _ J3) as HQ. specialize (J4 Hs).
-          unfold LS in *. rewrite dsum_cons, Hfd in J4. rewrite Hfree. rewrite Hfree in HL.
-          rewrite (remove_csum d_el _ _ _ A L) in *. cbn [fst] in *. lia.
+          split; [exact N1'|]. split; [exact N2'|]. split; [exact J3|]. split.
+          { intros Hs. rewrite (V9 Hs). cbn [s_qsize set_ref].
+            pose proof (LS_el_nonneg _ _ N1' N2') as HL. pose proof (qel_nonneg _ J3) as HQ. specialize (J4 Hs).
+            unfold LS in *. rewrite dsum_cons, Hfd in J4. rewrite Hfree. rewrite Hfree in HL.
+            rewrite (remove_csum d_el _ _ _ A L) in *. cbn [fst] in *. lia. }
+          { pose proof (J2 _ _ _ _ Hin) as Hel0. destruct (le_cap_dec (s_qsize st) (d_el d0) HN J5 Hel0) as [Ld Lm].
+            destruct (is_storage o) eqn:Es; [rewrite (V9 eq_refl)|rewrite (V7 eq_refl)]; cbn [s_qsize set_ref]; assumption. }
       + apply Z.leb_gt in E1. cbn [s_ref s_queue s_next s_qsize s_stored s_kept s_cur s_hung set_ref].
         set (c' := (d_id d, (d0, (n - 1, comb acc r))) :: ref_remove (d_id d) (s_ref st)).
         assert (Hcel : forall id, celled id c' = celled id (s_ref st)).
@@ -295,12 +308,12 @@ Section Inv.
           apply G. eapply remove_keys; eauto.
         * intros Hs. rewrite (H Hs). unfold LS. rewrite dsum_cons, Hfree, Hcs. rewrite Hfd. lia.
         * intros Hs. rewrite (I Hs). unfold LS. rewrite dsum_cons, Hfree, Hcs. rewrite Hfd. lia.
-        * intros HN. destruct (J HN) as (J1 & J2 & J3 & J4). rewrite dsum_cons in J1.
+        * intros HN. destruct (J HN) as (J1 & J2 & J3 & J4 & J5). rewrite dsum_cons in J1.
           pose proof (negf_nonneg d). pose proof (dsum_nonneg negf R' negf_nonneg).
           split; [lia|]. split; [|split; [exact J3|]].
           -- intros id x m a Hi. unfold c' in Hi. destruct Hi as [Hi|Hi]; [inversion Hi; subst; eauto|].
              apply remove_in in Hi; auto. destruct Hi as [Hi _]. eauto.
-          -- intros Hs. specialize (J4 Hs). unfold LS in *. rewrite dsum_cons, Hfd in J4. rewrite Hfree, Hcs. lia.
+          -- split; [|exact J5]. intros Hs. specialize (J4 Hs). unfold LS in *. rewrite dsum_cons, Hfd in J4. rewrite Hfree, Hcs. lia.
     - apply lookup_none in L.
       assert (Hfd : forall f, free f (s_ref st) d = f d) by (intros f; unfold free; now rewrite L).
       destruct (on_done_view d r st) as (V1 & V2 & V3 & V4 & V5 & V6 & V7 & V8 & V9). rewrite V1, V2, V3, V4, V5.
@@ -314,11 +327,15 @@ Section Inv.
       + rewrite dsum_cons in F. pose proof (oldf_nonneg (s_next st) d). pose proof (dsum_nonneg (oldf (s_next st)) R' (oldf_nonneg _)). lia.
       + intros Hs. rewrite (V7 Hs), (H Hs). unfold LS. rewrite dsum_cons. rewrite Hfd. lia.
       + intros Hs. rewrite (V8 Hs), (I Hs). unfold LS. rewrite dsum_cons. rewrite Hfd. lia.
-      + intros HN. destruct (J HN) as (J1 & J2 & J3 & J4). rewrite dsum_cons in J1.
+      + intros HN. destruct (J HN) as (J1 & J2 & J3 & J4 & J5). rewrite dsum_cons in J1.
         pose proof (negf_nonneg d). pose proof (dsum_nonneg negf R' negf_nonneg).
         assert (N1' : dsum negf R' = 0) by lia.
-        split; [exact N1'|]. split; [exact J2|]. split; [exact J3|]. intros Hs. rewrite (V9 Hs).
-        pose proof (LS_el_nonneg _ _ N1' J2) as HL. pose proof (qel_nonneg _ J3) as HQ. specialize (J4 Hs).
-        unfold LS in *. rewrite dsum_cons, Hfd in J4. lia.
+        split; [exact N1'|]. split; [exact J2|]. split; [exact J3|]. split.
+        { intros Hs. rewrite (V9 Hs).
+          pose proof (LS_el_nonneg _ _ N1' J2) as HL. pose proof (qel_nonneg _ J3) as HQ. specialize (J4 Hs).
+          unfold LS in *. rewrite dsum_cons, Hfd in J4. lia. }
+        { assert (Hel : 0 <= d_el d) by (assert (Hz : negf d = 0) by lia; unfold negf in Hz; destruct (d_el d <? 0) eqn:Qn; [discriminate|now apply Z.ltb_ge in Qn]).
+          destruct (le_cap_dec (s_qsize st) (d_el d) HN J5 Hel) as [Ld Lm].
+          destruct (is_storage o) eqn:Es; [rewrite (V9 eq_refl)|rewrite (V7 eq_refl)]; assumption. }
   Qed.
 End Inv.
